@@ -151,7 +151,7 @@ def templates(rng):
   """-> (name, source, expectation) ; expectation: list of (input, 'return'|'raise')"""
   w = rng.choice([1, 2, 4, 8, 16, 33, 64])
   n = rng.randrange(3, 14)
-  t = rng.randrange(10)
+  t = rng.randrange(11)
   H = HDR.format(w=w) + FL_HDR
   if t == 0:   # monotone, convergent
     body = f"""    s.a = InPort({w}); s.b = InPort({w}); s.x = Wire({w}); s.y = Wire({w})
@@ -225,6 +225,21 @@ def templates(rng):
     for i in range(1, k + 1):
       lines += ["    @update", f"    def up{i}(): s.v{i} @= s.v{i - 1}"]
     return "greenlet-update-once-in-cycle", H, "\n".join(lines), "reject"
+  if t == 10:  # the cycle is carried by two fields of one struct whose names are prefixes of each other (v / v2, a / ab ...); an upstream
+    # block makes the loop start at the block that writes the first field, so that one iteration changes the second field only
+    f1, f2 = rng.choice([("v", "v2"), ("a", "ab"), ("x", "x_"), ("d", "d0")])
+    if rng.random() < 0.5: f1, f2 = f2, f1
+    Hq = f"from pymtl3 import *\n@bitstruct\nclass Q:\n  {f1}: mk_bits({w})\n  {f2}: mk_bits({w})\n"
+    body = f"""    s.a = InPort({w}); s.k = InPort({w}); s.pre = Wire({w}); s.st = Wire(Q)
+    @update
+    def up_pre(): s.pre @= s.a
+    @update
+    def up_half(): s.st.{f1} @= (s.st.{f2} >> 1) + s.pre
+    @update
+    def up_or(): s.st.{f2} @= s.st.{f1} | s.k"""
+    m = (1 << w) - 1
+    exp = [({"a": rng.choice([0, 1, 2]) & m, "k": rng.choice([0, 1, 4 & m, rng.getrandbits(w)])}, "any") for _ in range(4)]
+    return "struct-fields-with-prefix-names", Hq + FL_HDR, body, exp
   # t == 8: saturating min chain (convergent after several iterations)
   body = f"""    s.a = InPort({w}); s.x = Wire({w}); s.y = Wire({w})
     @update
